@@ -2,6 +2,7 @@ CFG = {
     "lean_targets": ["Norad.Props.C16"],
     "audit": "Norad/Audit/C16.lean",
     "gens": ["C16", "C16path"],
+    "extract": "store_consts",
     "search_timeout": 75,
     "rule": ("operation histories (insert/remove/get/contains_key/clear/iter/keys/len/is_empty, environment steps on the source "
              "tree, Font::save into a sandbox with sentinels whose target holds sentinels / is absent / is an empty directory) on font.data / font.images, empty or loaded lazily from a generated tree; "
